@@ -72,6 +72,8 @@ class E1Session(SessionBase):
             taps.install()
             TAP.reset()
             gn.reset_process_globals()
+            if self.world.get('sim'):
+                gn.set_sim_params(self.world['sim'])
             try:
                 self.equipment, self.network, _ = gn.fresh_designed(self.world)
             except gn.REJECT as e:
@@ -278,6 +280,7 @@ class E1Session(SessionBase):
         self.st.element_events += 1
         name = type(el).__name__
         self.seen_types.add(name)
+        self.st.probes[f'element_event:{name}'] += 1
         when = f'after {name} {el.uid}'
         self._check_si(si, None, when)
         if pre is None:
@@ -451,6 +454,12 @@ def make_machine(prop, tier, cfg):
             return draw(comb_strategy())
         if k == 7:
             return draw(worlds.multiband_world_strategy())
+        if k == 8 and draw(st.booleans()):
+            w = draw(worlds.raman_world_strategy())
+            # a RamanFiber can only be propagated with the Raman solver switched on
+            w['sim'] = {'raman_params': {'flag': True, 'result_spatial_resolution': 10e3,
+                                         'solver_spatial_resolution': 500}, 'nli_params': {}}
+            return w
         return draw(worlds.world_strategy('small'))
 
     class E1Machine(RuleBasedStateMachine):
